@@ -569,6 +569,8 @@ def to_arg(kind, value):
         return TimeType.from_fraction(value.numerator, value.denominator)
     if kind == 'fraction':
         return F(value)
+    if kind == 'bool':
+        return bool(value)
     if kind == 'arrf':
         return numpy.array([float(x) for x in value], dtype=float)
     if kind == 'arri':
@@ -1707,6 +1709,59 @@ def fam_subst(ctx, n):
     return run_cases(ctx, cases)
 
 
+EXACT_KINDS = ('int', 'npint', 'tt')
+
+
+def history_cases(tree, value, kinds, rests, extra):
+    """One process, one value, successively supplied as different types to `evaluate_symbolic`
+    (the sympify memo behind `recursive_substitution` is process wide): for every step the name `a` is substituted by
+    `value` as `kinds[k]`, then the rest is evaluated - exactly when the type is int / numpy int / TimeType, numerically
+    otherwise.  A bool step substitutes into the bare name only (it just has to be seen by the process)."""
+    numpy, sympy, ES, EV, Expression, TimeType = _imports()
+    cases = []
+    for k, (kind, rest) in enumerate(zip(kinds, rests)):
+        if kind == 'bool':
+            outcome(lambda: ES('a').evaluate_symbolic({'a': bool(value)}))
+            continue
+        env = dict(rest)
+        env['a'] = (kind, F(value))
+        final = 'exact' if kind in EXACT_KINDS else 'numeric'
+        ex = dict(extra, groups=[['a'], [x for x in env if x != 'a']], final=final, kind='history', step=k,
+                  value=str(value), kinds=list(kinds), rests=[env_json(r) for r in rests], tree_hist=tree_to_json(tree))
+        c = mk_partial(tree, normalise_env(env), ex)
+        c.family = 'history'
+        c.extra['kind'] = 'history'
+        c.what = 'value %s supplied as %s after the same value as %s in this process' % (value, kind, list(kinds[:k]))
+        cases.append(c)
+    return cases
+
+
+def fam_history(ctx, n):
+    rng = ctx.fork('history')
+    cases = []
+    for i in range(n):
+        cfg = Cfg(numbers='rational', lit_styles=('int', 'frac'), index=False, bindex=False, sums=rng.random() < 0.2, scalars=['a', 'b', 'c'])
+        value = F(rng.choice([0, 1, 1, 2, 2, 3, 4, 5, 6, -1, -2, -3, 7, 10])) if rng.random() < 0.7 else F(rng.randrange(-12, 13), rng.choice([2, 4, 8]))
+        # the substituted name is divided by / multiplied with a non-dyadic constant: a float in its place shows
+        k = lit(F(rng.choice([1, 2, 5, 7, -4]), rng.choice([3, 7, 9, 11])))
+        core_t = (rng.choice(['div', 'mul']), var('a'), k) if rng.random() < 0.7 else ('div', k, ('add', var('a'), lit(F(1, 3))))
+        tree = (rng.choice(['add', 'sub', 'mul']), core_t, gen_num(rng, cfg, rng.randint(0, ctx.n(2, 3))))
+        pool = ['int', 'float', 'npint', 'npfloat', 'tt'] if value.denominator == 1 else ['float', 'npfloat', 'tt']
+        if value in (0, 1):
+            pool = pool + ['bool']
+        kinds = [rng.choice(pool) for _ in range(rng.randint(2, 4))]
+        if all(kd in ('float', 'npfloat', 'bool') for kd in kinds) or kinds[0] in EXACT_KINDS and rng.random() < 0.7:
+            kinds = [rng.choice(['float', 'npfloat'] + (['bool'] if value in (0, 1) else []))] + kinds[:-1] + [rng.choice([p_ for p_ in pool if p_ in EXACT_KINDS])]
+        rests = []
+        for kd in kinds:
+            r = gen_env(rng, tree, cfg, ('tt', 'int') if kd in EXACT_KINDS else ('float', 'int'))
+            r.pop('a', None)
+            rests.append(r)
+        cases += history_cases(tree, value, kinds, rests, {})
+        ctx.count('history:types:' + '>'.join(kinds[:2]))
+    return run_cases(ctx, cases)
+
+
 def fam_cached(ctx, n):
     rng = ctx.fork('cached')
     cases = []
@@ -2137,6 +2192,9 @@ def rebuild_case(rec):
         return mk_roundtrip(t, env, rec)
     if kind == 'vector':
         return mk_vector([tree_from_json(t) for t in rec['trees']], env, rec)
+    if kind == 'history':
+        cs = history_cases(tree_from_json(rec['tree_hist']), F(rec['value']), rec['kinds'], [env_from_json(r) for r in rec['rests']], {})
+        return [c for c in cs if c.extra['step'] == rec['step']][0]
     if kind == 'cached':
         rounds = [(m, env_from_json(e)) for m, e in rec['rounds']]
         return cached_cases(tree_from_json(rec['tree']), rounds, {})[rec['round']]
@@ -2243,6 +2301,7 @@ def run(ctx: core.Ctx):
             ('exact', lambda: fam_exact(ctx, ctx.n(450, 8000))),
             ('partial', lambda: fam_partial(ctx, ctx.n(300, 5000))),
             ('subst', lambda: fam_subst(ctx, ctx.n(150, 2500))),
+            ('history', lambda: fam_history(ctx, ctx.n(150, 2500))),
             ('cached', lambda: fam_cached(ctx, ctx.n(100, 1500))),
             ('roundtrip', lambda: fam_roundtrip(ctx, ctx.n(300, 5000))),
             ('arith', lambda: fam_arith(ctx, ctx.n(300, 5000))),
